@@ -89,6 +89,16 @@ _k("tuple2", [N, N], lambda a, b: (a, b), ["struct"])
 _k("list2", [N, N], lambda a, b: [a, b], ["struct"])
 _k("array2", [N, N], lambda a, b: _objarr(a, b), ["struct"])
 
+_k("subslice2", ["arr", N, N], lambda a, i, j: p.Subscript(a, p.Slice((i, j))), ["sub", "slice"])
+_k("subslice3", ["arr", N, N, N], lambda a, i, j, k: p.Subscript(a, p.Slice((i, j, k))), ["sub", "slice"])
+_k("subslice_lo", ["arr", N], lambda a, i: p.Subscript(a, p.Slice((i, None))), ["sub", "slice"])
+_k("subslice_hi", ["arr", N], lambda a, j: p.Subscript(a, p.Slice((None, j))), ["sub", "slice"])
+_k("subslice_all", ["arr"], lambda a: p.Subscript(a, p.Slice((None, None))), ["sub", "slice"])
+_k("subslice_tup", ["arr2", N, N], lambda a, i, j: p.Subscript(a, (p.Slice((i, None)), j)), ["sub", "slice"])
+_k("tuple1", [N], lambda a: (a,), ["struct"])
+_k("tuple3", [N, N, N], lambda a, b, c: (a, b, c), ["struct"])
+_k("neg", [N], lambda a: p.Product((-1, a)), [])
+
 ARITH = ["sum2", "sum3", "prod2", "prod3", "quot", "floordiv", "rem", "pow"]
 BITS = ["lshift", "rshift", "bnot", "bor2", "bxor2", "band2", "bor3", "bxor3", "band3"]
 LOGIC = ["lnot", "lor2", "land2", "lor3", "land3"]
